@@ -9,7 +9,7 @@ from vf.runner import Acc
 ID = "C19"
 LEVEL = "exploration"
 TECHNIQUE = "complete enumeration of the 4 binding-presence combinations (one fresh interpreter each) x every module import x every command class x every device-string/mode/initiator call of the three factories, file opens observed by a sys.addaudithook recorder and connections by the stand-in Context"
-RULE = ("4 presence combinations of (sgio, iscsi), each in its own subprocess: import of every module under pyscsi; construction + CDB encode/decode "
+RULE = ("4 presence combinations of (sgio, iscsi) x 4 orders of the factory calls (as listed, reversed, explicit-names-first, interleaved), each in its own subprocess: import of every module under pyscsi; construction + CDB encode/decode "
         "of each of the 42 command classes; the facade over a plain recording object; init_device / SCSIDevice / ISCSIDevice x 25 device strings "
         "(existing node, directories, absent node, seven well-formed iSCSI URLs incl. user%password@ credentials, IPv6 portal and mixed case, near-miss prefixes in both families, empty, relative, upper-case) x "
         "read-only/read-write x explicit/default initiator name. Non-trivial = at least one binding missing or a device string that is not the "
@@ -23,15 +23,15 @@ SERIAL = False
 
 
 def partitions(tier):
-    return [[s, i] for s in (0, 1) for i in (0, 1)]
+    return [[s, i, o] for s in (0, 1) for i in (0, 1) for o in range(4)]
 
 
-def run_child(sg, isc):
+def run_child(sg, isc, order=0):
     env = dict(os.environ)
     env["PYTHONHASHSEED"] = "0"
     root = os.path.dirname(os.path.dirname(os.path.dirname(os.path.abspath(__file__))))
     env["PYTHONPATH"] = root
-    p = subprocess.run([sys.executable, "-m", "vf.props.c19_child", os.environ.get("VF_REPO", "/repo"), str(sg), str(isc)],
+    p = subprocess.run([sys.executable, "-m", "vf.props.c19_child", os.environ.get("VF_REPO", "/repo"), str(sg), str(isc), str(order)],
                        capture_output=True, text=True, env=env, cwd=root, timeout=600)
     if p.returncode != 0:
         # the library could not even be driven in this configuration
@@ -40,9 +40,9 @@ def run_child(sg, isc):
 
 
 def replay(case):
-    sg, isc, kind, c = case
+    sg, isc, order, kind, c = case
     out = []
-    for k, cc, v in run_child(sg, isc):
+    for k, cc, v in run_child(sg, isc, order):
         if k == kind and cc == c:
             out += [tuple(x) for x in v]
     return out
@@ -50,9 +50,9 @@ def replay(case):
 
 def run_partition(part, tier, seed):
     acc = Acc(seed)
-    sg, isc = part
-    for kind, c, v in run_child(sg, isc):
-        case = [sg, isc, kind, c]
+    sg, isc, order = part
+    for kind, c, v in run_child(sg, isc, order):
+        case = [sg, isc, order, kind, c]
         trivial = sg and isc and (kind != "factory" or (isinstance(c, list) and c[1].endswith("node1")))
         acc.case(case, nontrivial=not trivial, key=repr(case))
         for k, w in v:
